@@ -41,6 +41,13 @@ def shape_cmds(el):
         if c is None:
             raise RefError(f"path data not in grammar: {el.get('d')!r}")
         return c
+    a = el.attrib
+    if t == "rect" and (CS.num(a.get("width"), 0.0) <= 0 or CS.num(a.get("height"), 0.0) <= 0):
+        raise RefError("degenerate rect (rendering disabled by the shapes chapter; not modelled)")
+    if t == "circle" and CS.num(a.get("r"), 0.0) <= 0:
+        raise RefError("degenerate circle")
+    if t == "ellipse" and (CS.num(a.get("rx"), 0.0) <= 0 or CS.num(a.get("ry"), 0.0) <= 0):
+        raise RefError("degenerate ellipse")
     return RS.outline(t, el.attrib)
 
 
@@ -99,10 +106,11 @@ class Fill:
 
 
 class Stroke:
-    __slots__ = ("subs", "params", "ctm", "inv", "paint", "alpha", "polys_root", "bbox")
+    __slots__ = ("subs", "params", "ctm", "inv", "paint", "alpha", "polys_root", "bbox", "cmds")
 
-    def __init__(self, subs, params, ctm, paint, alpha, bbox):
+    def __init__(self, subs, params, ctm, paint, alpha, bbox, cmds=None):
         self.subs, self.params, self.ctm, self.paint, self.alpha, self.bbox = subs, params, ctm, paint, alpha, bbox
+        self.cmds = cmds
         self.inv = tuple(float(v) for v in RA.inverse_exact(ctm)) if RA.det(ctm) != 0 else None
         self.polys_root = None
 
@@ -436,7 +444,7 @@ class _Builder:
                     params = RSK.params_from(comp)
                     subs = RSK.local_subpaths(cmds, self.tol)
                     so = CS.clamp01(CS.num(comp["stroke-opacity"], 1.0))
-                    g.children.append(Stroke(subs, params, m, comp["stroke"], so, PG.tight_bbox(cmds)))
+                    g.children.append(Stroke(subs, params, m, comp["stroke"], so, PG.tight_bbox(cmds), cmds))
                     self.scene.n_leaves += 1
             return
         # unknown SVG element: outside the supported subset
